@@ -410,6 +410,15 @@ class SymExec:
             return [st]
 
     def _stmt(self, s, st, depth):
+        if isinstance(s, ast.Assign) and isinstance(s.value, ast.IfExp) and isinstance(s.value.test, ast.Call):
+            # x = A if self.method(..) else B  where the method has several outcomes: each outcome selects its arm
+            try:
+                self.ev(s.value.test, st.copy(), depth)
+            except _Fork:
+                as_if = ast.copy_location(ast.If(test=s.value.test,
+                                                 body=[ast.copy_location(ast.Assign(targets=s.targets, value=s.value.body, lineno=s.lineno), s)],
+                                                 orelse=[ast.copy_location(ast.Assign(targets=s.targets, value=s.value.orelse, lineno=s.lineno), s)]), s)
+                return self._stmt(as_if, st, depth)
         if isinstance(s, ast.Assign) and isinstance(s.value, ast.IfExp):
             c = self.ev(s.value.test, st, depth)
             if self.truth(c) is None:
@@ -487,7 +496,30 @@ class SymExec:
             st.status = 'raise'
             return [st]
         if isinstance(s, ast.If):
-            c = self.ev(s.test, st, depth)
+            try:
+                c = self.ev(s.test, st, depth)
+            except _Fork as fk:
+                # the test is a call of a method with several outcomes: every outcome continues into the branch its value selects
+                if not isinstance(s.test, ast.Call):
+                    raise
+                outs = []
+                for o in fk.states:
+                    o.status = 'run'
+                    rv = o.retval if o.retval is not None else NONE
+                    o.retval = None
+                    tr_ = self.truth(rv)
+                    if tr_ is True:
+                        outs += self.block(s.body, [o], depth)
+                    elif tr_ is False:
+                        outs += self.block(s.orelse, [o], depth)
+                    else:
+                        a, b = o.copy(), o
+                        a.conds = a.conds + (('T', U.src(s.test)),)
+                        b.conds = b.conds + (('F', U.src(s.test)),)
+                        a.events.append(('cond', 'T', U.src(s.test)))
+                        b.events.append(('cond', 'F', U.src(s.test)))
+                        outs += self.block(s.body, [a], depth) + self.block(s.orelse, [b], depth)
+                return outs
             t = self.truth(c)
             if t is None:
                 t = self.recall(s.test, st)
